@@ -26,18 +26,27 @@ def tx_open(duck_conn) -> bool:
     return False
 
 
+def engine_conn(conn):
+    """the session's own engine connection, found by type (not by the name of a private attribute)"""
+    for v in vars(conn).values():
+        r = getattr(v, "_r", v) if type(v).__name__ == "Proxy" else v
+        if isinstance(r, duckdb.DuckDBPyConnection):
+            return r
+    return None
+
+
 def session_state(conn, with_tx: bool = False):
     """Per-session ground truth. Internal attributes are read defensively: if a behaviour-preserving refactoring
     renames one of them the component degrades to None instead of failing the check."""
-    d = getattr(conn, "_duck_conn", None)
-    d = getattr(d, "_r", d)
+    d = engine_conn(conn)
     cd = None
     if d is not None:
         try:
             cd = d.execute("select current_database(), current_schema()").fetchall()[0]
         except duckdb.Error as e:  # closed connection etc.
             cd = ("<err>", type(e).__name__)
-    variables = getattr(getattr(conn, "variables", None), "_variables", None)
+    vobj = getattr(conn, "variables", None)
+    variables = next((v for v in vars(vobj).values() if isinstance(v, dict)), None) if vobj is not None else None
     return (
         getattr(conn, "database", None),
         getattr(conn, "schema", None),
